@@ -763,7 +763,21 @@ fn c04(thorough: bool) -> Suite {
         &classes,
         &all_flavours(2),
         &[(S, Conv::Clone)],
-        &unb_sp(),
+        &[env(2, 1, None, UNB)],
+        true,
+    ));
+    // the same with a spurious return of the first park()
+    ps.extend(product(
+        "c04-1-sp",
+        &[
+            seqs(&[Op::Send, Op::SendT(2), Op::TrySend], 1),
+            seqs(&[Op::Recv, Op::RecvT(2), Op::TryRecv], 1),
+        ],
+        &[Cap::B(0), Cap::B(1)],
+        if thorough { &classes } else { &[Class::Z, Class::B3, Class::P, Class::L, Class::DL] },
+        &sync_only(2),
+        &[(S, Conv::Clone)],
+        &[env(2, 1, Some(0), UNB), env(1, 1, Some(0), UNB)],
         true,
     ));
     // two values: refill of the buffer from a blocked sender
